@@ -221,6 +221,10 @@ func (h *DefaultHandler) Run() (err error) {
 
 			if errors.Is(err, ErrConnClosed) {
 				h.eventHandlers.Trigger(utils.EventDisconnect)
+			} else {
+				// Stopped without a connection error (for example StopWithError(nil) when
+				// the connection context is cancelled): the application is still told.
+				h.eventHandlers.Trigger(utils.EventStopped)
 			}
 
 			return err
